@@ -380,14 +380,28 @@ def _pat_names(pp, acc):
     return acc
 
 
+_EXP_CACHE = {}
+_NAMES_CACHE = {}
+
+
 def _expanded(pp, d):
     if EXPANDER is None or not isinstance(d, tuple):
         return None
+    keep = _NAMES_CACHE.get(id(pp))
+    if keep is None:
+        keep = _NAMES_CACHE[id(pp)] = tuple(sorted(_pat_names(pp, set())))
+    key = (d, keep)
+    if key in _EXP_CACHE:
+        return _EXP_CACHE[key]
     try:
-        d2 = EXPANDER(d, tuple(sorted(_pat_names(pp, set()))))
+        d2 = EXPANDER(d, keep)
     except RecursionError:
-        return None
-    return d2 if d2 != d else None
+        d2 = d
+    r = d2 if d2 != d else None
+    if len(_EXP_CACHE) > 200000:
+        _EXP_CACHE.clear()
+    _EXP_CACHE[key] = r
+    return r
 
 
 def match(pat, d, env=None):
